@@ -239,6 +239,8 @@ func (w *world) runRead(sc *readScen, c corr) *result {
 
 // --------------------------------------------------------------- write ----
 
+var thoroughTier bool
+
 type writeScen struct {
 	name   string
 	data   []byte
@@ -321,6 +323,9 @@ func writeCorrs(sc *writeScen) []corr {
 	add("root-of-first-leaf-only", func(st *writeSt) { st.resp.Root = padRoot(st.got[:64]) })
 	cs = append(cs, corr{name: "msg1/answers-before-reading-data-right-root", msg: 0})
 	cs = append(cs, corr{name: "msg1/answers-before-reading-data-wrong-root", msg: 0})
+	if sc.length > 1<<20 && !thoroughTier {
+		return append(cs, rawCorrs(1)[:5]...) // 4 MiB per exchange: the framing corruptions are covered by the small writes
+	}
 	return append(cs, rawCorrs(1)...)
 }
 
